@@ -85,12 +85,15 @@ type FuncSpec struct {
 	Rely      []Clause // assumed after every cond.Wait re-acquisition (interference assumption, listed in evidence)
 	NoGo      string              // nogo[label]: the function (incl. inlined callees) starts no goroutine
 	Covers    []Clause            // cover[label] expr: must be satisfiable at some return of the function
+	CensusOnly bool // selected by a census directive only: just its lock-discipline obligations count for the property
+	Synth      bool // synthesised by a census directive (no contract text in /repo)
 	Before    map[string][]Clause // callee short name -> assertions that must hold (in this function's scope) whenever it calls that callee
 }
 
 type TypeSpec struct {
 	Name    string // resolved type string
 	Guarded map[string]string // field -> mutex field
+	GuardedOnly map[string]map[string]string // property -> field -> mutex field (in force only while that property is verified)
 	LockInv map[string][]Clause // mutex field -> invariants over `self`
 	Stable  map[string][]Clause // mutex field -> two-state invariants (old = state at the previous release/acquisition)
 	WaitCond map[string][]Clause // mutex field -> predicates that cond.Wait loops on this mutex wait to become false
@@ -126,7 +129,16 @@ type UseSpec struct {
 	Results []string
 }
 
+// CensusSpec: `census T property ID`: EVERY method of type T is checked for the lock discipline declared by
+// T's guarded_by clauses (a contract with an unrestricted frame is synthesised for methods without one).
+type CensusSpec struct {
+	Pkg, Type, Prop string
+	File            string
+	Line            int
+}
+
 type SpecSet struct {
+	Census  []CensusSpec
 	Globals map[string]string // pkg.Name -> "nonnil"
 	PureIface map[string][]string // interface type -> method-name prefixes assumed read-only
 	Axioms  []Clause
@@ -697,6 +709,13 @@ func (ss *SpecSet) ParseSpecFile(file, pkgPath string) (err error) {
 				ss.PureIface = map[string][]string{}
 			}
 			ss.PureIface[pkgPath+"."+f[0]] = append(ss.PureIface[pkgPath+"."+f[0]], f[1:]...)
+		case "census":
+			f := strings.Fields(rest)
+			if len(f) != 3 || f[1] != "property" {
+				panic(fmt.Errorf("%s:%d: census TYPE property ID", file, lno))
+			}
+			ss.Census = append(ss.Census, CensusSpec{Pkg: pkgPath, Type: f[0], Prop: f[2], File: file, Line: lno})
+			curF, curT, curL = nil, nil, nil
 		case "load":
 			// load <repo-relative dir>: also load that package with source (so its functions can be inlined); handled by the driver
 		case "global":
@@ -815,8 +834,24 @@ func (ss *SpecSet) ParseSpecFile(file, pkgPath string) (err error) {
 			if curT == nil {
 				panic(fmt.Errorf("%s:%d: guarded_by outside type", file, lno))
 			}
+			// guarded_by MU: f1, f2 [only PROP]  -- with `only`, the declaration is in force only while PROP is verified
+			only := ""
+			if i := strings.Index(rest, " only "); i > 0 {
+				only = strings.TrimSpace(rest[i+6:])
+				rest = strings.TrimSpace(rest[:i])
+			}
 			kv := strings.SplitN(rest, ":", 2)
 			for _, f := range splitTop(kv[1], ',') {
+				if only != "" {
+					if curT.GuardedOnly == nil {
+						curT.GuardedOnly = map[string]map[string]string{}
+					}
+					if curT.GuardedOnly[only] == nil {
+						curT.GuardedOnly[only] = map[string]string{}
+					}
+					curT.GuardedOnly[only][f] = strings.TrimSpace(kv[0])
+					continue
+				}
 				curT.Guarded[f] = strings.TrimSpace(kv[0])
 			}
 		case "lockinv":
